@@ -127,20 +127,38 @@ def _writes(ctx, rep, cg, reach, mstate):
     rep.notes.append("import-time writers of module state: {}".format(sorted(set(writers))[:12]))
 
 
-def _fresh_expr(e, caller):
-    """A container created on the spot (literal, comprehension, constructor call), or a local
-    name bound only to such expressions."""
+def _fresh_expr(e, caller, site=None):
+    """A container created on the spot (literal, comprehension, constructor call, slice copy),
+    or a local name whose definitions that can reach *site* are all such expressions."""
     if isinstance(e, (ast.Dict, ast.List, ast.Set, ast.ListComp, ast.DictComp, ast.SetComp)):
         return True
     if isinstance(e, ast.Call) and isinstance(e.func, ast.Name) and e.func.id in (
-            "dict", "list", "set", "defaultdict", "OrderedDict", "Counter", "deque"):
+            "dict", "list", "set", "defaultdict", "OrderedDict", "Counter", "deque", "sorted"):
         return True
+    if isinstance(e, ast.Subscript) and isinstance(e.slice, ast.Slice):
+        return True       # a slice of a list is a new list
     if isinstance(e, ast.Name):
         params = {a.arg for a in caller.args.args}
         if e.id in params:
             return False
-        vals = [a.value for a in ast.walk(caller) if isinstance(a, ast.Assign)
-                and any(isinstance(t, ast.Name) and t.id == e.id for t in a.targets)]
+        assigns = [a for a in ast.walk(caller) if isinstance(a, ast.Assign)
+                   and any(isinstance(t, ast.Name) and t.id == e.id for t in a.targets)]
+        if site is not None:
+            # definitions that can reach the call: those before it, and those anywhere in a loop
+            # that contains it
+            loops = []
+            cur = getattr(site, "_parent", None)
+            while cur is not None and cur is not caller:
+                if isinstance(cur, (ast.For, ast.While)):
+                    loops.append(cur)
+                cur = getattr(cur, "_parent", None)
+            reach = []
+            for a in assigns:
+                in_loop = any(any(x is a for x in ast.walk(l)) for l in loops)
+                if a.lineno < site.lineno or in_loop:
+                    reach.append(a)
+            assigns = reach
+        vals = [a.value for a in assigns]
         return bool(vals) and all(_fresh_expr(v, caller) for v in vals if not isinstance(v, ast.Name))
     return False
 
@@ -173,7 +191,7 @@ def _only_fresh_arguments(cg, fi, pname):
             if arg is None:
                 continue      # default value used
             sites += 1
-            if not _fresh_expr(arg, other.node):
+            if not _fresh_expr(arg, other.node, c):
                 return False
     return sites > 0
 
@@ -288,12 +306,33 @@ def _int_hashed(ctx, cls_name):
     attrs = None
     assigned = {}
     params = {a.arg: a for a in init.args.args}
+    # local names of the constructor: every definition (tuple targets are split; an element of
+    # an unpacked call result is written as <call>[i])
+    params = dict(params)
+    local_defs = {}
+
+    def bind(t, v):
+        if isinstance(t, ast.Name):
+            local_defs.setdefault(t.id, []).append(v)
+        elif isinstance(t, ast.Attribute) and norm(t.value) == "self":
+            assigned.setdefault(t.attr, []).append(v)
+        elif isinstance(t, (ast.Tuple, ast.List)):
+            if isinstance(v, (ast.Tuple, ast.List)) and len(v.elts) == len(t.elts):
+                for tt, vv in zip(t.elts, v.elts):
+                    bind(tt, vv)
+            else:
+                for i, tt in enumerate(t.elts):
+                    bind(tt, ast.Subscript(value=v, slice=ast.Constant(value=i), ctx=ast.Load()))
     for a in ast.walk(init):
-        if isinstance(a, ast.Assign) and len(a.targets) == 1 and isinstance(a.targets[0], ast.Attribute) \
-                and norm(a.targets[0].value) == "self":
-            if a.targets[0].attr == "_attrs" and isinstance(a.value, (ast.List, ast.Tuple)):
-                attrs = [e.value for e in a.value.elts if isinstance(e, ast.Constant)]
-            assigned.setdefault(a.targets[0].attr, []).append(a.value)
+        if isinstance(a, ast.Assign):
+            for t in a.targets:
+                if isinstance(t, ast.Attribute) and norm(t.value) == "self" and t.attr == "_attrs" \
+                        and isinstance(a.value, (ast.List, ast.Tuple)):
+                    attrs = [e.value for e in a.value.elts if isinstance(e, ast.Constant)]
+                bind(t, a.value)
+        elif isinstance(a, ast.AnnAssign) and a.value is not None:
+            bind(a.target, a.value)
+    params["__locals__"] = local_defs
     if attrs is None:
         return False
     for at in attrs:
@@ -313,8 +352,18 @@ def _is_int_expr(v, params):
     if isinstance(v, ast.Constant):
         return isinstance(v.value, int)
     if isinstance(v, ast.Name):
+        defs = params.get("__locals__", {}).get(v.id)
+        if defs:
+            seen = params.setdefault("__seen__", set())
+            if v.id in seen:
+                return True
+            seen.add(v.id)
+            try:
+                return all(_is_int_expr(d, params) for d in defs)
+            finally:
+                seen.discard(v.id)
         p = params.get(v.id)
-        return p is not None and p.annotation is not None and norm(p.annotation) == "int"
+        return p is not None and hasattr(p, "annotation") and p.annotation is not None and norm(p.annotation) == "int"
     if isinstance(v, ast.BinOp):
         return _is_int_expr(v.left, params) and _is_int_expr(v.right, params)
     if isinstance(v, ast.Subscript):
